@@ -159,11 +159,16 @@ impl SwiftField for Field61 {
         if customer_ref_part.len() <= 16 {
             customer_reference = customer_ref_part;
         } else {
+            // Before a "//" the customer reference stands alone: more than 16 characters is an error,
+            // not something to cut silently
+            if after_customer_ref.is_some() {
+                return Err(ParseError::InvalidFormat {
+                    message: "Field 61 customer reference exceeds 16 characters".to_string(),
+                });
+            }
             customer_reference = customer_ref_part[..16].to_string();
             // If customer ref part is > 16 chars and no //, rest is supplementary details
-            if after_customer_ref.is_none() && customer_ref_part.len() > 16 {
-                supplementary_details = Some(customer_ref_part[16..].to_string());
-            }
+            supplementary_details = Some(customer_ref_part[16..].to_string());
         }
 
         // Parse bank reference and supplementary details (after //)
